@@ -153,6 +153,17 @@ func opLookup(args string) string {
 			base.BuiltinClasses = append(base.BuiltinClasses, c)
 		}
 	}
+	// classes the program defined at top level itself
+	for k := range base.DefinedClassTable {
+		delete(base.DefinedClassTable, k)
+	}
+	if len(parts) > 4 {
+		for _, c := range strings.Split(strings.TrimSpace(parts[4]), ",") {
+			if c != "" {
+				base.SetDefinedClass("", c)
+			}
+		}
+	}
 	for i, e := range strings.Split(strings.TrimSpace(parts[1]), ";") {
 		if e == "" {
 			continue
